@@ -289,6 +289,8 @@ class AugmentedGraph(ADMG, AugmentedNodeMixin):
     def remove_nodes_from(self, nodes):
         nodes = list(nodes)
         for n in nodes:
+            hash(n)  # an unhashable entry cannot be a node: fail before anything is unregistered
+        for n in nodes:
             self.graph["F-nodes"].pop(n, None)
             self.graph["S-nodes"].pop(n, None)
         return super().remove_nodes_from(nodes)
@@ -412,6 +414,8 @@ class AugmentedPAG(PAG, AugmentedNodeMixin):
 
     def remove_nodes_from(self, nodes):
         nodes = list(nodes)
+        for n in nodes:
+            hash(n)  # an unhashable entry cannot be a node: fail before anything is unregistered
         for n in nodes:
             self.graph["F-nodes"].pop(n, None)
             self.graph["S-nodes"].pop(n, None)
